@@ -193,6 +193,11 @@ fn hl(v: impl Iterator<Item = usize>) -> String {
     if v.is_empty() { "-".into() } else { v.join(",") }
 }
 
+/// the fixed text pattern of generated resources: words of four letters, with two- and four-byte characters mixed in
+pub fn pattern_char(i: usize) -> char {
+    if i % 5 == 4 { ' ' } else if i % 7 == 3 { '\u{e9}' } else if i % 11 == 6 { '\u{1F600}' } else { (b'a' + (i % 23) as u8) as char }
+}
+
 impl Exec {
     pub fn new() -> Self {
         Exec { store: new_store() }
@@ -206,7 +211,7 @@ impl Exec {
         let store = &mut self.store;
         match t[1] {
             "addres" if t.len() == 4 => {
-                let text: String = (0..t[3].parse::<usize>().unwrap_or(0)).map(|i| if i % 5 == 4 { ' ' } else { (b'a' + (i % 23) as u8) as char }).collect();
+                let text: String = (0..t[3].parse::<usize>().unwrap_or(0)).map(pattern_char).collect();
                 let r = guarded(std::panic::AssertUnwindSafe(|| store.add_resource(TextResourceBuilder::new().with_id(t[2]).with_text(text))));
                 ok_or_err(r, |h| h.as_usize().to_string())
             }
